@@ -71,6 +71,26 @@ CLAIMED.update({
     },
 })
 
+CLAIMED.update({
+    "C29": {
+        "technique": "static analysis: finite-domain path exploration over MIR with exactness kinds as the domain (incl. tracked &mut referents); field coverage",
+        "level": ("Static, exhaustive over input exactness kinds {Exact, Inexact, Absent}: every Precision combinator in "
+                  "datafusion-common (19 today: methods and in-place precision_* helpers) can yield an Exact result only when all "
+                  "Precision inputs are Exact; Statistics::to_inexact / ColumnStatistics::to_inexact demote every Precision field. "
+                  "This is a necessary condition for 'exact means exact'; which operators downgrade when, and the values "
+                  "themselves, are not decided."),
+    },
+    "C50": {
+        "technique": "static analysis: finite-domain constant propagation over MIR; guard dominance of the sanity check; declared-vs-actual emission cross-table",
+        "level": ("Static: check_finiteness_requirements returns Err on every (boundedness, emission) combination that is unbounded "
+                  "and pipeline-breaking (exhaustive over the finite domain); and for the join operators that derive their "
+                  "EmissionType from the join type, a type declared Incremental is not one whose rows the operator emits only in "
+                  "its final phase. The second rule fails on today's tree for LeftSemi in HashJoinExec and NestedLoopJoinExec — a "
+                  "genuine defect reproduced at run time and recorded in known_findings.json. Run-time liveness of streams is not "
+                  "decided."),
+    },
+})
+
 NA = {
     'C01': 'whole-pipeline value semantics over all queries x all table contents: functional verification, no clause visible in code shape beyond C03/C05/C47',
     'C08': 'ordering/permutation of runtime values (loser tree, cursors, heaps are value algorithms); no structural clause',
